@@ -1064,7 +1064,7 @@ Proof.
 Qed.
 
 (** ** the worker's put: admission | store insert (| index registration) *)
-Lemma mworker2_admitted : forall cfg ms a k v id ttl obs, wdel ms = Some (WPAdmitted a k v id ttl obs) ->
+Lemma mworker2_charged : forall cfg ms a k v id ttl obs, wdel ms = Some (WPCharged a k v id ttl obs) ->
   mworker2 cfg ms =
   match ttl with
   | None => ({| win := with_base (win ms) (set_ack a Accepted (store_insert k v id None (mbase ms))); cps := cps ms; wdel := None |}, obs)
@@ -1112,9 +1112,9 @@ Proof.
       * cbn [fst snd stopped mbase with_mbase win base with_base wdel cps ups wpending]. repeat split; try reflexivity; assumption.
       * (* accepted *)
         cbn [fst snd stopped].
-        rewrite (mworker2_admitted cfg {| win := with_base (win ms) s1; cps := cps ms; wdel := Some (WPAdmitted a k v id (Some t) (5 :: 1 :: map sk_id vs)) |}
+        rewrite (mworker2_charged cfg {| win := with_base (win ms) s1; cps := cps ms; wdel := Some (WPCharged a k v id (Some t) (5 :: 1 :: map sk_id vs)) |}
                    a k v id (Some t) (5 :: 1 :: map sk_id vs) eq_refl).
-        change (mbase {| win := with_base (win ms) s1; cps := cps ms; wdel := Some (WPAdmitted a k v id (Some t) (5 :: 1 :: map sk_id vs)) |}) with s1.
+        change (mbase {| win := with_base (win ms) s1; cps := cps ms; wdel := Some (WPCharged a k v id (Some t) (5 :: 1 :: map sk_id vs)) |}) with s1.
         destruct (calc_expiry (now s1) t) as [e|] eqn:He.
         -- cbn [fst snd stopped win cps wdel with_base ups wpending].
            rewrite mworker2_window by reflexivity. cbn [win]. rewrite wstep_put2_eq. cbn [wpending base ups].
@@ -1133,7 +1133,7 @@ Proof.
     + destruct x as [|rs|rs|].
       * cbn [fst snd stopped mbase with_mbase win base with_base wdel cps ups wpending]. repeat split; try reflexivity; assumption.
       * cbn [fst snd stopped].
-        rewrite (mworker2_admitted cfg {| win := with_base (win ms) s1; cps := cps ms; wdel := Some (WPAdmitted a k v id None (5 :: 1 :: map sk_id vs)) |}
+        rewrite (mworker2_charged cfg {| win := with_base (win ms) s1; cps := cps ms; wdel := Some (WPCharged a k v id None (5 :: 1 :: map sk_id vs)) |}
                    a k v id None (5 :: 1 :: map sk_id vs) eq_refl).
         cbn [fst snd stopped mbase win base with_base wdel cps ups wpending]. repeat split; try reflexivity; assumption.
       * cbn [fst snd stopped mbase with_mbase win base with_base wdel cps ups wpending]. repeat split; try reflexivity; assumption.
